@@ -143,6 +143,26 @@ def main(tier):
         f"{tot['op_ok']} operations ok, {tot['op_err']} returned an error/none")
     # implementation-level model of the repair loop (spec/RepairLoop.tla): every behaviour replayed on convert_to_archive
     run_rloop(v, "C08", tier, ev)
+    # COUNTS of consecutive degenerate blocks: "file, N empty content blocks, 3 bytes, end", encoded independently (the
+    # current writer never emits an empty content block; the format allows them and older writers did)
+    wdb = workdir("c08-blockruns")
+    build("prod")
+    for nrun in ([300000] if tier == "quick" else [300000, 3000000]):
+        bo, bp = os.path.join(wdb, f"out{nrun}.json"), os.path.join(wdb, f"progress{nrun}.txt")
+        import subprocess as _sp
+        try:
+            p = mbt("prod", "blockruns", bo, bp, str(nrun), timeout=1800, check=False)
+            rc, err = p.returncode, p.stderr[-300:]
+        except (_sp.TimeoutExpired, EngineHang):
+            rc, err = -999, "does not terminate"
+        if rc != 0:
+            at = open(bp).read().strip() if os.path.exists(bp) else "?"
+            v.violation(dict(check="block-runs", kind="hang" if rc == -999 else "process-death", op=at, n=nrun),
+                        dict(engine="blockruns", profile="prod", n=nrun, rc=rc, stderr=err, during=at))
+            continue
+        for viol in json.load(open(bo))["violations"]:
+            v.violation(dict(check="block-runs", kind=viol["kind"], op=viol["op"], n=nrun), dict(engine="blockruns", profile="prod", detail=viol))
+        ev["block_runs"] = ev.get("block_runs", []) + [nrun]
     cov = dict(states=r.distinct, transitions=r.generated, traces_validated_against_impl=tot["runs"],
                samples=samples[:3] or ["none"], behaviours_from_model=len(behs), operations_ok=tot["op_ok"],
                operations_err=tot["op_err"], tlc_runs=ev["tlc"], constants=consts, exhaustive=False,
